@@ -364,9 +364,94 @@ def rule_kill(ctx) -> None:
                 if is_apply and len(c.args) >= 2:
                     sites.append((n, c))
         for n, c in sites:
-            ctx.check(_kill_guard(ctx, f2, n, pe), "C04.KILL", f"{f2.qual}/apply_changes", f2.loc(c),
+            ok = _kill_guard(ctx, f2, n, pe)
+            if not ok and f2.parent is not None:
+                # a local closure: the kill switch may be tested where the closure is used
+                par = f2.parent
+                pc = ctx.cfg(par)
+                from ..dataflow import node_exprs
+                uses = [m for m in pc.nodes for e in node_exprs(m) for x in walk_no_defs(e) if isinstance(x, ast.Name) and x.id == f2.name and isinstance(x.ctx, ast.Load)]
+                ok = bool(uses) and all(_kill_guard(ctx, par, m, pe) for m in uses)
+            ctx.check(ok, "C04.KILL", f"{f2.qual}/apply_changes", f2.loc(c),
                       "sibling caller of apply_changes honours cfg:t4.enabled",
                       "sibling caller commits through apply_changes without consulting the T4 kill switch (cfg:t4.enabled)")
+
+
+def _is_apply_call(ctx, f, rd, n, c) -> bool:
+    tail = call_tail(c)
+    is_apply = tail == "apply_changes" and not isinstance(c.func, ast.Attribute) or ctx.prog.callee_name(f, c).endswith("apply:apply_changes")
+    if not is_apply and isinstance(c.func, ast.Name):
+        for d in rd.reaching(c.func.id, n):
+            if d.value is not None and any(const_str(x) == "apply_changes" for x in ast.walk(d.value)):
+                is_apply = True
+    return is_apply and len(c.args) >= 2
+
+
+def _param_multi_called(ctx, h, pname: str) -> Optional[List]:
+    """a path in helper `h` on which the callable parameter `pname` is invoked a second time (retry / loop)"""
+    cfg = ctx.cfg(h)
+    calls = [n for n in cfg.nodes for c in node_calls(n) if isinstance(c.func, ast.Name) and c.func.id == pname]
+    for a in calls:
+        p = cfg.path([a], lambda m: m in calls, include_start=False)
+        if p is not None:
+            return [a] + p
+    return None
+
+
+def rule_commit_once(ctx) -> None:
+    """sibling committers (the agent batch driver): apply_changes runs at most once per committed buffer - it is not inside
+    a retry, and a closure containing it is not handed to a helper that may invoke its argument twice"""
+    n_sites = 0
+    for f2 in ctx.prog.all_funcs("clematis.engine."):
+        if f2.qual == RUN_TURN or f2.module.name.startswith("clematis.engine.apply") or f2.parent is not None:
+            continue
+        cfg = ctx.cfg(f2)
+        rd = ctx.rd(f2)
+        inv = []  # (node, description)
+        for n in cfg.nodes:
+            for c in node_calls(n):
+                if _is_apply_call(ctx, f2, rd, n, c):
+                    inv.append((n, "direct call"))
+        for ch in ctx.prog.all_funcs(f2.qual + "."):
+            ccfg = ctx.cfg(ch)
+            crd = ctx.rd(ch)
+            if not any(_is_apply_call(ctx, ch, crd, n, c) for n in ccfg.nodes for c in node_calls(n)):
+                continue
+            for n in cfg.nodes:
+                for c in node_calls(n):
+                    if isinstance(c.func, ast.Name) and c.func.id == ch.name:
+                        inv.append((n, f"call of closure {ch.name}"))
+                        continue
+                    args = list(c.args) + [k.value for k in c.keywords]
+                    for i, a in enumerate(c.args):
+                        if isinstance(a, ast.Name) and a.id == ch.name:
+                            cal = ctx.prog.callee(f2, c)
+                            if cal is None or cal[0] != "func" or cal[1] not in ctx.prog.funcs:
+                                ctx.undecided("C04.ONCE", f"{f2.qual}/closure-passed:{ch.name}", f2.loc(c), f"closure containing apply_changes is passed to an unresolved callee `{src(c.func)}`")
+                                continue
+                            h = ctx.prog.funcs[cal[1]]
+                            hp = [p for p in h.params if p not in ("self", "cls")] if h.cls is not None else list(h.params)
+                            if i >= len(hp):
+                                continue
+                            w = _param_multi_called(ctx, h, hp[i])
+                            ctx.check(w is None, "C04.ONCE", f"{f2.qual}/closure-run-once:{ch.name}->{h.name}", f2.loc(c),
+                                      f"{h.name} invokes its callable argument at most once per call",
+                                      f"the closure `{ch.name}` contains apply_changes and is handed to `{h.name}`, which can invoke `{hp[i]}` a second time (retry after an exception): "
+                                      "the same approved batch reaches the store twice and the version is bumped twice for one turn",
+                                      ctx.path_witness(h, w) if w else None)
+                            inv.append((n, f"closure {ch.name} via {h.name}"))
+        if not inv:
+            continue
+        n_sites += len(inv)
+        nodes = [n for n, _ in inv]
+        for n, desc in inv:
+            # the loops this invocation sits in (the buffer loop): advancing one of them takes the next buffer
+            heads = [h for h in cfg.nodes if h.kind == "iter" and isinstance(h.ast, (ast.For, ast.AsyncFor)) and n.ast is not None and any(y is n.ast for st in h.ast.body for y in ast.walk(st))]
+            p = cfg.path([n], lambda m: m in nodes, avoid=lambda m: m in heads, include_start=False)
+            ctx.check(p is None, "C04.ONCE", f"{f2.qual}/commit-once@{desc.split(' ')[0]}", f2.loc(n.ast),
+                      f"apply_changes ({desc}) cannot run again before the next buffer is taken",
+                      f"apply_changes ({desc}) can be reached again without advancing to the next buffer: a batch is committed twice", ctx.path_witness(f2, [n] + p) if p else None)
+    ctx.floor("C04.ONCE", "apply_changes invocation sites in sibling committers", n_sites, 1)
 
 
 def run(ctx) -> None:
@@ -376,3 +461,4 @@ def run(ctx) -> None:
     rule_bust(ctx)
     rule_cad(ctx)
     rule_kill(ctx)
+    rule_commit_once(ctx)
